@@ -25,18 +25,18 @@ def prefix(ctx):
             if "prefix_weight" in P["observe"]:
                 okc, v = ctx.call(f"prefix_weight({p})", g.prefix_weight, p, sig="prefix_weight:exception")
                 if okc:
-                    ctx.eq(f"prefix_weight({p})", v, ref, pivots=piv, sig=f"prefix_weight:{P['shape']}:{''.join(p)}")
+                    ctx.eq(f"prefix_weight({p})", v, ref, pivots=piv, sig=f"prefix_weight:{P['shape']}:{''.join(map(str, p))}")
             if "prefix_grammar" in P["observe"]:
                 okc, v = ctx.call(f"prefix_grammar({p})", lambda: g.prefix_grammar(p), sig="prefix_grammar:exception")
                 if okc:
-                    ctx.eq(f"prefix_grammar({p})", v, ref, pivots=piv, sig=f"prefix_grammar:{P['shape']}:{''.join(p)}")
+                    ctx.eq(f"prefix_grammar({p})", v, ref, pivots=piv, sig=f"prefix_grammar:{P['shape']}:{''.join(map(str, p))}")
             if "derivatives" in P["observe"]:
                 g2 = make_cfg(ctx, sk, ws)
                 okc, v = ctx.call(f"derivatives({p})[-1].treesum()", lambda: g2.derivatives(p)[-1].treesum(), sig="derivatives:exception")
                 if okc:
-                    ctx.eq(f"derivatives({p})[-1].treesum()", v, ref, pivots=piv, sig=f"derivatives:{P['shape']}:{''.join(p)}")
+                    ctx.eq(f"derivatives({p})[-1].treesum()", v, ref, pivots=piv, sig=f"derivatives:{P['shape']}:{''.join(map(str, p))}")
         if "derivative" in P["observe"]:
-            for a in sorted(sk.V):
+            for a in sorted(sk.V, key=repr):
                 g3 = make_cfg(ctx, sk, ws)
                 okc, d = ctx.call(f"derivative({a})", g3.derivative, a, sig="derivative:exception")
                 if not okc:
@@ -48,7 +48,7 @@ def prefix(ctx):
                         continue
                     okc, v = ctx.call(f"derivative({a})({y})", d, y, sig="derivative-call:exception")
                     if okc:
-                        ctx.eq(f"derivative({a})({y}) = G({a}{''.join(y)})", v, ref, pivots=piv, sig=f"derivative:{P['shape']}:{a}:{''.join(y)}")
+                        ctx.eq(f"derivative({a})({y}) = G({a}{''.join(map(str, y))})", v, ref, pivots=piv, sig=f"derivative:{P['shape']}:{a}:{''.join(map(str, y))}")
         ctx.stub_uses = used["n"]
 
 
@@ -56,7 +56,7 @@ def jobs(tier, seed):
     out = []
     quick = tier == "quick"
     L = 2 if quick else 3
-    shapes = ["G-FIN", "G-LIN", "G-NU", "G-PAL"] if quick else ["G-FIN", "G-LIN", "G-NU", "G-PAL", "G-LR", "G-UC", "G-DUP", "G-NULL3", "G-S1", "G-MUT"]
+    shapes = ["G-FIN", "G-LIN", "G-NU", "G-PAL", "G-NUC", "G-INT"] if quick else ["G-FIN", "G-LIN", "G-NU", "G-PAL", "G-NUC", "G-INT", "G-LR", "G-UC", "G-DUP", "G-NULL3", "G-S1", "G-MUT", "G-DUP2"]
     for sh in shapes:
         sk = grammar(sh)
         prefixes = [list(x) for x in all_strings(sk.V, L)]
